@@ -265,3 +265,39 @@ def roots(body, op, depth=10, seen=None, extra=EXTRA_ROOT_TRANSPARENT):
             if (nm in TRANSPARENT or nm in extra) and t["args"]:
                 out |= roots(body, t["args"][0], depth - 1, seen, extra)
     return out
+
+
+def deep_origins(P, body, x, depth=2, **kw):
+    """origins(), with results of statically dispatched local helper calls expanded into the helper's return-value
+    origins (one tuple field deep), so that extracting code into a helper does not hide where a value comes from."""
+    out = []
+    for o in origins(body, x, **kw):
+        out += _expand(P, o, depth, kw)
+    return out
+
+
+def _expand(P, o, depth, kw):
+    if depth <= 0 or o.kind != "call" or o.site is None:
+        return [o]
+    t = o.site.t
+    callee = t.get("resolved")
+    if not (t.get("local") and not t.get("dyn") and callee in P.bodies):
+        return [o]
+    cb = P.bodies[callee]
+    proj = []
+    rest = list(o.path)
+    if rest and cb.local_ty(0).startswith("("):
+        idx = rest.pop(0)
+        if str(idx).isdigit():
+            proj = [{"f": int(idx), "n": "", "t": "", "a": ""}]
+    inner = origins(cb, {"l": 0, "p": proj}, **kw)
+    res = []
+    for i in inner:
+        if i.kind in ("unknown",):
+            continue
+        ni = Origin(i.kind, i.name, i.site, tuple(i.path) + tuple(rest), i.body, i.extra)
+        res += _expand(P, ni, depth - 1, kw)
+    # an accessor (value derives only from its parameters / fields / constants) stays opaque: it is the named source
+    if not any(i.kind == "call" for i in res) and not proj:
+        return [o]
+    return res
